@@ -1,87 +1,143 @@
 (* SQLGEN -- compiler correctness of the SQL generator (deepens C01 / C02 / C08 / C09 / C15).
 
-   Model/SqlGen.v   `to_near` : the step-by-step transcription of SQLModel.*_to_near_sql (sql_model.py) and of the SQLite join
-                    rewrites (SQLite.py), producing a typed NearSQL tree
-   Model/SqlSem.v   `nsem` / `qsem` : the meaning of such a tree as SQL
-   Model/Sem.v      `sem_gen fl` : the reference semantics of pipelines (fl_sqlite: SQL conventions)
-   Model/ColumnsUsed.v + Props/C10.v : columns_used_from_sources and the per-node pruning lemma, used as the key step
+   Model/SqlGen.v   `to_near` : the step-by-step transcription of SQLModel.*_to_near_sql (sql_model.py: defaulting / extension /
+                    checks of `using`, pruning through columns_used_from_sources, the terms written, the guards of c520ee9
+                    6f11e66 2bf9832 a22df8b eb42bd0, the view-name counter, the SQL-level extend merge with its contention
+                    test and 05d5f06) and of the SQLite join rewrites (SQLite.py), producing a typed NearSQL tree
+   Model/SqlSem.v   `qsem` / `nsem` : the meaning of such a tree as SQL (written from the SQL rules; shares only primitive
+                    functions with Model/Sem.v)
+   Model/Sem.v      `sem_gen fl` : the reference semantics of pipelines (C01: fl_sqlite = the SQL conventions)
+   Model/ColumnsUsed.v + Props/C10.v : columns_used_from_sources and the per-node pruning lemma C10_node_pruning_sound,
+                    which is the key step of every node's proof (Proofs/SqlGenP3.v prune_unary)
 
-   Statements are for EVERY pipeline of the stated fragment, every request `using`, every environment, every counter start, and
-   every flavour fl of scalar conventions (the generated text is the same; both sides read it under the same conventions).
+   The statements hold for EVERY pipeline of the stated fragment, every request `using`, every environment, every start value
+   of the view counter, every dialect record d (merging on or off, SQLite join rewrites on or off) and every flavour fl of
+   scalar conventions (the generated text is the same; both sides read it under the same conventions).
+
+   FRAGMENT (`stage1 (d_allow_extend_merges d) p`):  table descriptions, select_rows, select_columns, drop_columns,
+   rename_columns, map_columns, order_rows, project (grouped or not, with the pruning of aggregates and the "keep one aggregate"
+   guard), un-windowed extend INCLUDING the SQL-level extend merge, concat_rows (without id column, or with an id column
+   over sources that are neither an un-windowed extend nor an order_rows without limit: for those the generator goes through
+   the builder's extend merge / order skipping, which is transcribed but not proved), and -- for dialects that do not merge at
+   SQL level -- windowed extend.   NOT covered by the semantic theorems: natural_join (generic and SQLite-rewritten; transcribed,
+   tied structurally and behaviourally, but unproved), windowed extend under SQL-level merging.
 
    The list-based SQL semantics fixes one row order; the theorems state EQUALITY of tables (same columns in the same order,
    same rows in the same order), which gives "same multiset of rows" and "same row order after order_rows" a fortiori. *)
 From Coq Require Import List Bool Arith ZArith QArith String Permutation.
 Import ListNotations.
 From DA Require Import Base.PyRT Base.Val Model.Sem Model.ColumnsUsed Model.SqlGen Model.SqlSem
-  Proofs.SqlGenP1 Proofs.SqlGenP2 Proofs.SqlGenP4 Proofs.SqlGenP6 Proofs.SqlGenP7 Proofs.SqlGenP8 Proofs.SqlGenP9.
+  Proofs.SqlGenP1 Proofs.SqlGenP2 Proofs.SqlGenP4 Proofs.SqlGenP6 Proofs.SqlGenP7 Proofs.SqlGenP8 Proofs.SqlGenP9 Proofs.SqlGenEx.
 Local Open Scope string_scope.
 Local Open Scope list_scope.
 
-(* STAGE (i): table descriptions, select_rows, select_columns, drop_columns, rename_columns, map_columns, un-windowed extend,
-   order_rows, concat_rows (`stage1`; an id-column concat_rows over an un-windowed extend or an order_rows without limit is
-   not covered: the generator then goes through the builder's extend merge / order skipping), SQL-level extend merging off.
-
-   builder_ok p : the builders accepted p (C10's transcription of the constructors' column checks);
+(* builder_ok p : the builders accepted p (C10's transcription of the constructors' column checks);
    wf_env e p   : every table description of p is bound to a stored table with exactly the declared columns;
    the request (`using`, or every column when None) is duplicate free and names columns of p.
    Then the reference semantics is defined and, for every NON-EMPTY duplicate-free part C of the request, the generated query
    asked for the columns C -- which is how every enclosing query and the final SELECT ask -- returns EXACTLY the reference
-   table restricted to C. *)
-Theorem SQLGEN_correct_stage1_partial :
+   table restricted to C:   nsem (to_near p using) = restrict using (sem_gen p). *)
+Theorem SQLGEN_correct_partial :
   forall fl (e : env) d p usg ids q ids',
-  d_allow_extend_merges d = false -> builder_ok p = true -> stage1 p = true -> wf_env e p ->
+  builder_ok p = true -> stage1 (d_allow_extend_merges d) p = true -> wf_env e p ->
   NoDup (req p usg) -> incl (req p usg) (column_names p) ->
   to_near d p usg ids = Ok (q, ids') ->
   exists T, sem_gen fl p e = Some T /\
     forall C, C <> [] -> NoDup C -> incl C (req p usg) -> qsem fl e q (Some C) = Some (sem_select_cols C T).
 Proof. exact stage1_correct. Qed.
-Print Assumptions SQLGEN_correct_stage1_partial.
+Print Assumptions SQLGEN_correct_partial.
 
 (* The whole query as SQLModel.to_sql writes it (using=None, the final SELECT lists the step's own terms): its result,
-   read in the declared column order, IS the reference table; every declared column is returned. *)
-Theorem SQLGEN_correct_toplevel_stage1_partial :
+   read in the declared column order, IS the reference table (same rows, same order: in particular after a final order_rows). *)
+Theorem SQLGEN_correct_toplevel_partial :
   forall fl (e : env) d p ids q ids',
-  d_allow_extend_merges d = false -> builder_ok p = true -> stage1 p = true -> wf_env e p ->
+  builder_ok p = true -> stage1 (d_allow_extend_merges d) p = true -> wf_env e p ->
   to_near d p None ids = Ok (q, ids') ->
   exists T R, sem_gen fl p e = Some T /\ nsem fl q e = Some R /\
     sem_select_cols (column_names p) R = T /\ incl (column_names p) (cols R) /\ NoDup (cols R) /\
     Permutation (rows (sem_select_cols (column_names p) R)) (rows T).
 Proof. exact stage1_toplevel. Qed.
-Print Assumptions SQLGEN_correct_toplevel_stage1_partial.
+Print Assumptions SQLGEN_correct_toplevel_partial.
 
-(* A request for no column at all (row counts, constant extends): the generated query still has exactly as many rows as
-   the reference table -- the content of the "never narrow a step to nothing" guards for this fragment. *)
-Theorem SQLGEN_row_count_stage1_partial :
+(* C08 for the SQL path: the final SELECT returns every declared column, no column twice, and the declared columns carry the
+   reference values.  (PARTIAL: that it returns NO further column is established for this fragment only up to `cols R =
+   keys of the final step's terms`, which the structural tie compares with the real graph.) *)
+Theorem SQLGEN_result_columns_partial :
+  forall fl (e : env) d p ids q ids',
+  builder_ok p = true -> stage1 (d_allow_extend_merges d) p = true -> wf_env e p ->
+  to_near d p None ids = Ok (q, ids') ->
+  exists R, nsem fl q e = Some R /\ incl (column_names p) (cols R) /\ NoDup (cols R) /\
+            option_map cols (sem_gen fl p e) = Some (cols (sem_select_cols (column_names p) R)).
+Proof.
+  intros fl e d p ids q ids' BO St WF H. destruct (stage1_toplevel fl e d p ids q ids' BO St WF H) as [T [R [E1 [E2 [E3 [E4 [E5 _]]]]]]].
+  exists R. split; [exact E2|]. split; [exact E4|]. split; [exact E5|]. rewrite E1, E3. reflexivity.
+Qed.
+Print Assumptions SQLGEN_result_columns_partial.
+
+(* A request for no column at all (row counts, constant extends above): the generated query still has exactly as many rows
+   as the reference table -- the content of the "never narrow a step to nothing" guards (c520ee9, a22df8b) and of C09's
+   "one row without grouping" for the SQL path of this fragment. *)
+Theorem SQLGEN_row_count_partial :
   forall fl (e : env) d p usg ids q ids',
-  d_allow_extend_merges d = false -> builder_ok p = true -> stage1 p = true -> wf_env e p ->
+  builder_ok p = true -> stage1 (d_allow_extend_merges d) p = true -> wf_env e p ->
   NoDup (req p usg) -> incl (req p usg) (column_names p) ->
   to_near d p usg ids = Ok (q, ids') ->
   exists T R, sem_gen fl p e = Some T /\ qsem fl e q (Some []) = Some R /\ List.length (rows R) = List.length (rows T).
 Proof. exact stage1_row_count. Qed.
-Print Assumptions SQLGEN_row_count_stage1_partial.
+Print Assumptions SQLGEN_row_count_partial.
 
 (* ALL node kinds, ALL dialects, merging on or off: every generated view (step names extend_N, project_N, ..., and the two
    aliases join_source_left_N / join_source_right_N of a join) carries a number taken from the counter between its start value
-   and its end value, and the names of one generated tree are pairwise distinct.  (This is the invariant C15's SQL finding is
-   about, and what /repo 161d83f relies on when it starts the counter past every table named like a view.) *)
+   and its end value, and the names of one generated tree are pairwise distinct.  (The invariant C15's SQL finding is about,
+   and what /repo 161d83f relies on when it starts the counter past every table named like a view.) *)
 Theorem SQLGEN_view_names_distinct :
   forall d p usg ids q ids', to_near d p usg ids = Ok (q, ids') ->
   NoDup (view_names q) /\ (forall v, In v (view_names q) -> (ids <= vn_id v < ids')%nat) /\ (ids <= ids')%nat.
 Proof. exact view_names_distinct. Qed.
 Print Assumptions SQLGEN_view_names_distinct.
 
+(* REGRESSIONS: the generator as it was before two repairs, under the same SQL semantics.
+   c520ee9: t.project({s: a.sum()}).extend({c: 1}).select_columns([c]) -- the reference has ONE row; the old project step (no
+   terms, SELECT * ) yields one row per row of t; the current generator yields the reference table. *)
+Theorem SQLGEN_pre_c520ee9_refuted :
+  option_map (fun t => List.length (rows t)) (sem_gen fl_sqlite rx_p1 rx_env) = Some 1%nat /\
+  option_map (fun t => List.length (rows t)) (nsem fl_sqlite rx_q1_pre rx_env) = Some 3%nat /\
+  (exists q n, to_near d_sqlite rx_p1 None 0 = Ok (q, n) /\ nsem fl_sqlite q rx_env = sem_gen fl_sqlite rx_p1 rx_env).
+Proof. exact c520ee9_regression. Qed.
+Print Assumptions SQLGEN_pre_c520ee9_refuted.
+(* 6f11e66: a final order_rows over a stored table with a column its description does not declare: the old step (SELECT * )
+   returns the undeclared column, the current one the declared columns only. *)
+Theorem SQLGEN_pre_6f11e66_refuted :
+  option_map cols (nsem fl_sqlite rx_q2_pre rx_env_wide) = Some ["a"; "b"; "zz"] /\
+  (exists q n, to_near d_sqlite rx_p2 None 0 = Ok (q, n) /\
+               option_map cols (nsem fl_sqlite q rx_env_wide) = Some (column_names rx_p2) /\
+               nsem fl_sqlite q rx_env = sem_gen fl_sqlite rx_p2 rx_env).
+Proof. exact f6f11e66_regression. Qed.
+Print Assumptions SQLGEN_pre_6f11e66_refuted.
+
 (* ------------------------------------------------------------------ the hypotheses are satisfiable *)
 Definition ex_t := OTable "t" ["a"; "b"; "c"].
 Definition ex_p :=
-  OOrder (OConcat (OSelectCols (OExtend (OSelectRows ex_t (EOp ">" [ECol "a"; EConst (VNum 0)]))
-                                        [("x", EOp "+" [ECol "a"; ECol "b"])] false no_window) ["x"; "c"])
-                  (ORename (OSelectCols ex_t ["b"; "c"]) [("x", "b")]) (Some "src") "l" "r")
+  OOrder (OConcat (OSelectCols (OExtend (OExtend (OSelectRows ex_t (EOp ">" [ECol "a"; EConst (VNum 0)]))
+                                                 [("x", EOp "+" [ECol "a"; ECol "b"])] false no_window)
+                                        [("y", EOp "*" [ECol "a"; EConst (VNum 2)])] false no_window) ["x"; "c"; "y"])
+                  (ORename (OProject ex_t [("y", EOp "sum" [ECol "a"])] ["b"; "c"]) [("x", "b")]) (Some "src") "l" "r")
          ["x"] ["x"] (Some 3%nat).
 Definition ex_env : env := [("t", mktable ["a"; "b"; "c"] [[VNum 1; VNum 2; VStr "u"]; [VNum (-1); VNull; VStr "v"]; [VNum 3; VNum 4; VNull]])].
 Example SQLGEN_guards_satisfiable :
-  builder_ok ex_p = true /\ stage1 ex_p = true /\
-  (exists q n, to_near d_sqlite_nomerge ex_p None 0 = Ok (q, n) /\
+  builder_ok ex_p = true /\ stage1 true ex_p = true /\ wf_env ex_env ex_p /\
+  (exists q n, to_near d_sqlite ex_p None 0 = Ok (q, n) /\
                nsem fl_sqlite q ex_env = sem_gen fl_sqlite ex_p ex_env /\
                option_map (fun t => List.length (rows t)) (nsem fl_sqlite q ex_env) = Some 3%nat).
-Proof. split; [vm_compute; reflexivity|]. split; [vm_compute; reflexivity|]. eexists. eexists. split; [vm_compute; reflexivity|]. split; vm_compute; reflexivity. Qed.
+Proof.
+  split; [vm_compute; reflexivity|]. split; [vm_compute; reflexivity|]. split.
+  - intros n cs I. simpl in I. exists (mktable ["a"; "b"; "c"] [[VNum 1; VNum 2; VStr "u"]; [VNum (-1); VNull; VStr "v"]; [VNum 3; VNum 4; VNull]]).
+    destruct I as [I|[I|[]]]; injection I as <- <-; (split; [reflexivity|split; [reflexivity|repeat constructor]]).
+  - eexists. eexists. split; [vm_compute; reflexivity|]. split; vm_compute; reflexivity.
+Qed.
+(* a windowed extend, for a dialect that does not merge *)
+Definition ex_w := OSelectCols (OExtend ex_t [("r", EOp "cumsum" [ECol "a"])] true (mkwin ["c"] ["b"] ["b"])) ["r"; "c"].
+Example SQLGEN_window_guard_satisfiable :
+  builder_ok ex_w = true /\ stage1 false ex_w = true /\
+  (exists q n, to_near d_sqlite_nomerge ex_w None 0 = Ok (q, n) /\ nsem fl_sqlite q ex_env = sem_gen fl_sqlite ex_w ex_env).
+Proof. split; [vm_compute; reflexivity|]. split; [vm_compute; reflexivity|]. eexists. eexists. split; vm_compute; reflexivity. Qed.
